@@ -496,7 +496,13 @@ func C04(c *vk.Ctx) {
 		if s.name == "insert" || s.name == "insert-lz4" || !quick {
 			for g := 0; g <= term; g++ {
 				for k := 0; k < cb; k += 16 {
-					jobs = append(jobs, job{s, fault{kind: "wfailexc", k: g, arg: k}, 0, false})
+					// (the order in which the receiver handles the exception and the sender's write
+					// fails matters: one preemption for the plain insert, thorough everywhere)
+					wb := 0
+					if s.name == "insert" || !quick {
+						wb = 1
+					}
+					jobs = append(jobs, job{s, fault{kind: "wfailexc", k: g, arg: k}, wb, false})
 				}
 			}
 		}
